@@ -16,7 +16,7 @@ impl Check for C12 {
         Plan { cases: if tier == Tier::Quick { 30_000 } else { 600_000 }, max_len: 4096 }
     }
     fn rule(&self) -> String {
-        "choice sequence -> lossless Modular codestream of depth <= 12 that declares modular_16bit_buffers = 1 *truthfully* (the reference encoder rejects any transform stage, prediction or reconstructed value outside the signed 16-bit range and regenerates the case), channel widths/heights 1..70 and around group edges, all transforms and tree shapes of C03. Oracle: decode with default (narrow, SIMD-capable) buffers and with force_wide_buffers(true): every channel sample-identical between the two, and both equal to the original. Non-trivial: RCT or squeeze present and some channel dimension > 32; distinct by FNV of the codestream.".into()
+        "choice sequence -> lossless Modular codestream of depth <= 12 (a quarter of the cases: depth 13..15 or samples over the whole signed 16-bit range, so that predictor sums such as N+W-NW leave 16 bits while every stored value fits) that declares modular_16bit_buffers = 1 *truthfully* (the reference encoder rejects any transform stage, prediction or reconstructed value outside the signed 16-bit range and regenerates the case), channel widths/heights 1..70 and around group edges, all transforms and tree shapes of C03. Oracle: decode with default (narrow, SIMD-capable) buffers and with force_wide_buffers(true): every channel sample-identical between the two, and both equal to the original. Non-trivial: RCT or squeeze present and some channel dimension > 32; distinct by FNV of the codestream.".into()
     }
     fn assumptions(&self) -> Vec<String> {
         vec![
